@@ -149,8 +149,9 @@ class Inventory:
                 key = (kind, what)
                 counts[key] = counts.get(key, 0) + 1
                 out.append({"fn": n, "kind": kind, "what": what, "ord": counts[key] - 1, "line": line, "ok": ok, "detail": detail, "exp": exp,
-                            "file": b.file})
+                            "file": b.file, "bb": self._cur_bb})
             for bb, bl in enumerate(b.blocks):
+                self._cur_bb = bb
                 if bl.get("cleanup"):
                     continue
                 t = bl["term"]
@@ -240,12 +241,14 @@ def auto_discharge(mir, site_fn, b, bb, t):
     return None
 
 
-def check_paths(ctx, rep, rule, roots, stop=(), label=None, extra_discharge=None):
+def check_paths(ctx, rep, rule, roots, stop=(), label=None, extra_discharge=None, site_filter=None):
     """A2 as a rule: every panic site reachable from roots must be discharged mechanically, reviewed, or a known finding"""
     inv = Inventory(ctx.mir, roots, stop)
     reviewed = load_reviewed()
     sites = inv.sites()
     n_auto = n_rev = n_open = 0
+    if site_filter is not None:
+        sites = [s for s in sites if site_filter(s)]
     for s in sites:
         b = ctx.mir.body(s["fn"])
         rep.fn(s["fn"])
